@@ -91,8 +91,21 @@ def fingerprint():
                         pass
             else:
                 out[label] = _render(val, 0, frozenset())
+    out.update(environment())
     out["<modules>"] = ",".join(sorted(m for m in sys.modules if m == "prtpy" or m.startswith("prtpy.")))
     return out
+
+
+def environment():
+    """process-wide settings outside prtpy that change what later arithmetic does"""
+    import warnings
+    env = {"<env> numpy error mode": repr(sorted(np.geterr().items())),
+           "<env> warnings turned into errors": repr(sorted({(f[0], getattr(f[2], "__name__", str(f[2]))) for f in warnings.filters if f[0] == "error"})),
+           "<env> recursion limit": repr(sys.getrecursionlimit())}
+    return env
+
+
+ENV_THAT_CHANGES_RESULTS = ("<env> numpy error mode", "<env> warnings turned into errors")
 
 
 def diff(a, b):
